@@ -34,6 +34,7 @@ TRUSTED_BASE = [
     "harness/extract_srcfromdict.py (_from_dict_init key loop body and both forms of from_dict -> Gen/SrcFromDict.lean) and lean/BpProofs/PyPreludeFromDict.lean (leaf codecs, class lookups, keyword-argument dict with insert-or-replace)",
     "harness/extract_srcenum.py (enum.py: member loop of EnumType.__new__, lookups, try_value, from_string, mutation refusals, copy / pickle hooks -> Gen/SrcEnum.lean) and lean/BpProofs/PyPreludeEnum.lean (dicts as association lists, member allocation with a fresh object identity; TypeError for unhashable arguments outside the model)",
     "harness/extract_srctyping.py (plugin/typing_compiler.py: the seven methods of the three compilers -> Gen/SrcTyping.lean) and lean/BpProofs/PyPreludeTyping.lean",
+    "harness/extract_srccasing.py (casing.py: the regex constants and the two re.sub patterns PARSED into a regex AST, the substitute_word closures, camel_case, sanitize_name, safe_snake_case -> Gen/SrcCasing.lean), lean/BpProofs/PyRegex.lean (semantics of CPython's re matching and re.sub incl. the empty-match rule; validated against the real re by harness/tests/check_regex.py) and lean/BpProofs/PyPreludeCasing.lean",
     "that each Lean statement in lean/BpProofs/Props says what the English property says",
 ]
 
